@@ -67,7 +67,8 @@ CHECKS = {
         'engine': 'opsim', 'category': 'exploration', 'design_ref': 'DESIGN.md 5.C13',
         'text': ('Seeded edit/solve histories on a real modeling.op (add, delete present/absent/duplicate, objective reassignment valid/invalid, '
                  'scribbling on returned lists, solve dense/sparse) against a list-based reference model checked after every operation; '
-                 'solve compared with a freshly constructed op.'),
+                 'solve compared with a freshly constructed op; constructor and addconstraint argument forms incl. refused ones, sparse coefficients, '
+                 'vector equalities, mixed piecewise-linear objectives, repr() counts, lists held across later edits.'),
         'note': 'Fault-free corner of the technique (no scheduler, no injected fault: refused operations are the only faults); history dimension only. Status comparisons only between decisive outcomes; values to 1e-6.',
         'technique': 'seeded operation-history simulation against an executable reference model, ddmin minimisation, exact replay',
     },
@@ -92,7 +93,10 @@ CHECKS = {
     'C20': {
         'engine': 'lifesim', 'category': 'exploration', 'design_ref': 'DESIGN.md 5.C20',
         'text': ('Seeded histories of export / write-through / release / owner-drop / gc / resize / copy / pickle (protocols 0-5) / tofile-fromfile through a simulated '
-                 'stream with EOF-at-byte-b, OSError and wrong-type faults / buffer import (with size/tc arguments) / structural and in-place mutation of sparse owners; model of storage + alias relation checked after every operation; '
+                 'stream (read-only, readinto, io.BytesIO; into a fresh target or back into the exported owner) with EOF-at-byte-b, OSError, wrong-type, too-long '
+                 'and None faults / buffer import (with size/tc arguments, 3-D and look-alike formats refused, source left un-exported) / structural and '
+                 'in-place mutation of sparse owners / in-place operators incl. /=, %=, matrix and self operands; values that only survive exact '
+                 'transport (nan, inf, denormals, 64-bit integers); model of storage + alias relation checked after every operation; '
                  'every export must pin its exporter by exactly one reference (reference-count oracle); poison-on-free / electric-fence allocator '
                  'makes a dangling export observable; a crash of the interpreter is a verdict attributed to the journalled operation.'),
         'note': 'Assumes CPython reference counting. 2-D strided/Fortran buffer sources need NumPy, which /venv lacks - out of reach. Seam build.',
